@@ -300,7 +300,7 @@ Section Style.
   | DS_signed Ls s lsR :
       Forall (cline i) (Ls ++ [s ++ crlf]) -> Forall (fun l => l <> first) (Ls ++ [s ++ crlf]) ->
       f = concat (Ls ++ [s ++ crlf]) ++ first ++ concat lsR ->
-      ps_lines i f = ((Ls ++ [s ++ crlf]) ++ first :: lsR, true) -> domshape f.
+      ps_lines i f = ((Ls ++ [s ++ crlf]) ++ first :: lsR, true) -> lsR <> [] -> domshape f.
 
   Lemma dom_shape f :
     (let '(ls, ok) := ps_lines i f in dom_scan first crlf ok [] ls && (zlen (concat ls) =? zlen f)) = true -> domshape f.
@@ -322,6 +322,7 @@ Section Style.
       apply (DS_signed _ Ls1 s (lsR' ++ [lastl])); auto.
       + rewrite !concat_app. cbn [concat]. rewrite !app_nil_r, <- !app_assoc. reflexivity.
       + rewrite El. f_equal. rewrite <- !app_assoc. reflexivity.
+      + destruct lsR'; discriminate.
     - apply app_inj_tail in E1 as [<- <-]. apply Forall_app in E2 as [E2 _].
       apply (DS_unsigned _ Ls0 lastl); auto.
   Qed.
@@ -341,7 +342,7 @@ Section Style.
     ztake (zlen (concat Ls ++ s)) f = concat Ls ++ s /\
     ((f = concat Ls ++ s /\ no10 s) \/ exists R, f = concat (Ls ++ [s ++ crlf]) ++ first ++ R).
   Proof.
-    intros [Ls s H1 H2 H3 H4 H5 H6|Ls s lsR H1 H2 H3 H4].
+    intros [Ls s H1 H2 H3 H4 H5 H6|Ls s lsR H1 H2 H3 H4 HlsR].
     - exists Ls, s. split; [apply Forall_app; split; [assumption|constructor; [now apply cline_app_crlf|constructor]]|].
       split; [apply Forall_app; split; [assumption|constructor; [assumption|constructor]]|].
       split; [|split; [rewrite <- H5; apply ztake_all; lia|left; now split]].
